@@ -9,14 +9,20 @@ DRIVER = "drv_gcd"
 DRIVER_MODULE = "Driver.Gcd"
 PROPS = "RlibModel.Props.C11"
 PROPS_SRC = "RlibModel.Props.C11Src"     # second tie: `src_*` theorems about the definitions regenerated from the source text
-PROFILES = ["release"]
+PROFILES = ["release", "debug"]     # debug: debug-assertions on, a reduced stream of the same families (harness_args)
 SHRINK_SEP = None
 RULE = ("cases: exhaustive cube for egcd, exhaustive square for gcd/lcm (i64), every (a1,m1,a2,m2) with small moduli for crt, "
         "every 8-bit operand pair for i8/u8 (sampled 1/3 in quick), boundary-biased samples up to 2^20 (egcd, crt) and over the "
         "whole range of each of the 12 integer types (gcd, lcm; operands as decimal strings parsed by the type itself, so u128 up to 2^128-1; "
         "families: boundary, unsigned upper half, lcm representable but operand product not — see histogram keys operand_in_upper_half_*, "
-        "lcm_fits_but_product_overflows_*, operand_above_2^100_*); a small stream of egcd/crt cases far outside the 2^20 box (operands "
-        "up to 2^62) where the property says nothing (`S any`) but the checked i64 model must reproduce every overflow panic; non-trivial = distinct case inside the property's domain "
+        "lcm_fits_but_product_overflows_*, operand_above_2^100_*); egcd and crt at EVERY signed instantiation (`egcd:ty`, `crt:ty` for i8, i16, i32, i64, "
+        "i128, isize): a small cube / all small moduli per type, the whole i8 type sampled for egcd and every pair of i8 moduli with lcm up to 170 for crt, "
+        "and a stream at the overflow threshold of each type (coefficient bound (|c|/g)*max(|a|,|b|)/g, lcm, 2*(m2/g) just inside and just outside MAX; "
+        "moduli between the cube root and the square root of MAX; one tiny and one huge modulus; a large shared factor) — keys egcd_edge_*, crt_edge_*, "
+        "crt_in_domain_but_m1*m2*max_overflows_*; the spec answer is definite exactly on Lean's domEgcd / domCrt (the mathematical intermediate values fit the type), "
+        "which contains the 2^20 box of i64; a small stream of egcd/crt cases far outside (operands "
+        "up to 2^62) where the property says nothing (`S any`) but the checked model must reproduce every overflow panic; a second pass with "
+        "debug assertions on (reduced stream); non-trivial = distinct case inside the property's domain "
         "(spec answer not `any`) with at least one operand of magnitude > 1")
 ASSUMPTIONS = [
     "the Lean model of rlib_gcd is hand-written; it is tied to the code (i) by running both on the same cases and (ii) by theorems "
@@ -25,6 +31,11 @@ ASSUMPTIONS = [
     "tools/rs2lean.py (tokenizer, parser, the translation rules documented at its top) is trusted to render its Rust subset faithfully; "
     "the `Integer` impls of rlib_num_traits for the primitive types are assumed to be the primitive + - * / % abs and comparisons",
     "harness built with overflow-checks=true so a wrapped intermediate shows up as panic:overflow instead of a silent wrong value",
+    "the domain of egcd / crt at a type other than the i64 box is read from the property's last sentence (`the mathematical intermediate values fit "
+    "the integer type`) as: operands of magnitude <= MAX (the minimum excluded), the proved bound (|c|/g)*max(|a|,|b|)/g of every Bezout coefficient and "
+    "intermediate product <= MAX, and for crt additionally 2*(m2/g) <= MAX and lcm <= MAX (theorems egcdT_dom, crtT_dom, egcd_dom_answer, crt_dom_answer); "
+    "unsigned instantiations of egcd are not driven (a solution generally has a negative coefficient, which an unsigned type cannot hold)",
+    "the view `solution` of egcd / crt is decided by the harness's own exact arithmetic (256-bit products for the i128 instantiation), independent of the model",
 ]
 MANIFEST = {
     "level": "proof",
@@ -32,7 +43,7 @@ MANIFEST = {
              "(0,0)); egcd returns a pair exactly when gcd | c, the pair solves a*x+b*y=c, |x| <= |c|/g*max(1,|b|/g), |y| <= |c|/g*max(1,|a|/g); "
              "crt returns the unique solution in [0, lcm) exactly when the congruences are compatible, never an error on its domain; the "
              "checked-arithmetic i64 instantiations of egcd and crt (what the driver executes) never overflow inside the 2^20 box and equal "
-             "the unbounded functions; gcd/lcm at any integer type do not overflow when |operands| and result are representable. "
+             "the unbounded functions, and so does the checked instantiation at every signed type on the per-input domain domEgcd / domCrt (which contains the box); gcd/lcm at any integer type do not overflow when |operands| and result are representable. "
              "The hand-written model is tied to rlib_gcd by a differential correspondence run on every check, and (unbounded-integer "
              "semantics) by machine-checked equality with definitions regenerated from the source text by a translator on every run."),
     "note": ("Trusted: Lean kernel, axioms propext/Classical.choice/Quot.sound, the hand-written model (checked against the code only on the "
@@ -41,6 +52,10 @@ MANIFEST = {
                   "translation of rlib/gcd/src/lib.rs regenerated and proved equal to the model on every run"),
     "design_ref": "DESIGN.md §6 C11",
 }
+
+
+def harness_args(params, profile):
+    return ["--profile", profile]
 
 
 def nontrivial(case, rec):
